@@ -16,6 +16,7 @@ OUTPUTS = {
     'gen_classtable': ['Gen.ClassTable'],
     'gen_adim': ['Gen.AdimF', 'Gen.AdimR'],
     'gen_bhref': ['Gen.BHRefF', 'Gen.BHRefR'],
+    'gen_qcd': ['Gen.QcdSrcF', 'Gen.QcdSrcR'],
 }
 
 
@@ -34,7 +35,7 @@ def main(strict=False):
         pass
     except Exception as e:
         status['py2lean'] = repr(e)[:400]
-    for gen in ('gen_classtable', 'gen_adim', 'gen_bhref'):
+    for gen in ('gen_classtable', 'gen_adim', 'gen_bhref', 'gen_qcd'):
         try:
             mod = __import__(gen)
         except ImportError:
